@@ -106,8 +106,10 @@ def cases(rng):
         yield "BinaryAUPRC", lambda: check_rows(cls_run(M.BinaryAUPRC, {"num_tasks": T_}, s, y), [cls_run(M.BinaryAUPRC, {}, s[i], y[i]) for i in range(T_)])
         yield "binary_auprc", lambda: check_rows(lambda: F.binary_auprc(s, y, num_tasks=T_), [lambda i=i: F.binary_auprc(s[i], y[i]) for i in range(T_)])
         th = torch.tensor(sorted(set([0.0, 1.0] + [rng.randint(0, 4) / 4 for _ in range(3)])))
-        yield "BinaryBinnedAUROC", lambda: check_rows(lambda: cls_run(M.BinaryBinnedAUROC, {"num_tasks": T_, "threshold": th}, s, y)()[0],
-                                                      [lambda i=i: cls_run(M.BinaryBinnedAUROC, {"threshold": th}, s[i], y[i])()[0] for i in range(T_)],
+        # binned AUROC accepts threshold lists that do not start at 0: scores below the first threshold exist
+        th2 = th if rng.random() < 0.5 else torch.tensor(sorted({rng.randint(1, 4) / 4 for _ in range(3)} | {1.0}))
+        yield "BinaryBinnedAUROC", lambda: check_rows(lambda: cls_run(M.BinaryBinnedAUROC, {"num_tasks": T_, "threshold": th2}, s, y)()[0],
+                                                      [lambda i=i: cls_run(M.BinaryBinnedAUROC, {"threshold": th2}, s[i], y[i])()[0] for i in range(T_)],
                                                       first)
         yield "BinaryBinnedAUPRC", lambda: check_rows(cls_run(M.BinaryBinnedAUPRC, {"num_tasks": T_, "threshold": th}, s, y),
                                                       [cls_run(M.BinaryBinnedAUPRC, {"threshold": th}, s[i], y[i]) for i in range(T_)])
